@@ -418,9 +418,20 @@ class SimStream(io.TextIOBase):
     def isatty(self):
         return self._tty
 
+    broken = None      # set by the seam: (child state, plan) - the reader of stdout/stderr goes away after effect k
+
     def write(self, s):
         if not isinstance(s, str):
             raise TypeError('write() argument must be str')
+        b = SimStream.broken
+        if b is not None and b[0].n > b[1].get('after_effect', -1) and (b[1].get('stream', 'stdout') in (self._name, 'both')
+                                                                          or self._name == '<' + b[1].get('stream', 'stdout') + '>'):
+            if not b[1].get('_logged'):
+                b[1]['_logged'] = True
+                b[0].fired = True
+                b[0].log({'k': 'stdout-broken', 'fault': 'stdout-broken', 'after_effect': b[1].get('after_effect', -1), 'stream': self._name})
+            code = getattr(errno_mod, b[1].get('errno', 'EPIPE'))
+            raise OSError(code, os.strerror(code))       # EPIPE -> BrokenPipeError
         _real_os['write'](self._fd, s.encode('utf-8', 'backslashreplace'))
         return len(s)
 
@@ -788,6 +799,7 @@ def _install(ch):
     sys.stdout = SimStream(outfd, bool(tty.get('stdout')), '<stdout>')
     sys.stderr = SimStream(errfd, bool(tty.get('stderr', tty.get('stdout'))), '<stderr>')
     sys.stdin = SimStdin(bool(tty.get('stdin')))
+    SimStream.broken = (ch, dict(plan['stdout_fault'])) if plan.get('stdout_fault') else None
 
     def sim_input(prompt=''):
         sys.stdout.write(str(prompt))
@@ -976,6 +988,15 @@ def _reimport_optimized():
     import tally.cli  # noqa: F401
 
 
+def _say(text):
+    """What the interpreter itself would print on stderr at exit (a traceback, SystemExit's message) - lost without further
+    ado when stderr has gone away."""
+    try:
+        sys.stderr.write(text)
+    except OSError:
+        pass
+
+
 def _child_main(root, ctl, cwd, plan, target):
     """Runs in the forked child.  Never returns."""
     code = 70
@@ -996,13 +1017,13 @@ def _child_main(root, ctl, cwd, plan, target):
             elif isinstance(c, int):
                 code = c
             else:
-                sys.stderr.write(str(c) + '\n')
+                _say(str(c) + '\n')
                 code = 1
         except KeyboardInterrupt:
-            sys.stderr.write('KeyboardInterrupt\n')
+            _say('KeyboardInterrupt\n')
             code = 130
         except BaseException:
-            sys.stderr.write(traceback.format_exc())
+            _say(traceback.format_exc())
             code = 1
         import threading
         unclosed = [f._rel for f in ch.inflight]
